@@ -294,6 +294,12 @@ func ifaceNilCmp(a, b Val) (string, bool) {
 	if b.K == "Nil" && a.K == SIface {
 		return sEq(sx("if.tag", a.S), "0"), true
 	}
+	if a.K == "Nil" && b.K == SFunc {
+		return sEq(sx("fn.id", b.S), "0"), true
+	}
+	if b.K == "Nil" && a.K == SFunc {
+		return sEq(sx("fn.id", a.S), "0"), true
+	}
 	return "", false
 }
 
